@@ -1,5 +1,6 @@
 import GenjaxVerif.Lemmas.GFIWeights
 import GenjaxVerif.Lemmas.GFIReplay
+import GenjaxVerif.Lemmas.GFIArgs
 import GenjaxVerif.Props.GFITest
 /-!
 # C02 — scores are the exact joint log-density defined by the program
@@ -34,6 +35,12 @@ theorem C02_trace_score_eq_assess_partial (ds : DistSem) (m : Mode) (p : Prog) (
   have := replay ds m p i r h hg
     { c := r.tr.choices, sel := .none, old := none, key := [], args := i.args } rfl rfl rfl
   simp [assess, this, replayed, Except.map]
+
+/-- The score of ANY trace is the sum, over every random choice it holds that is not masked off,
+    of that choice's stored log-density — which (C02_leaf_logdensity) is the density of its value
+    at the arguments computed from the values it depends on. -/
+theorem C02_score_is_sum_over_live_choices (t : Trace) : t.score = liveSum (sites t) :=
+  score_eq_liveSum t
 
 /-- A masked-off call contributes zero to the score, whatever it contains. -/
 theorem C02_masked_off_contributes_zero (args : Val) (inner : Trace) :
